@@ -80,21 +80,22 @@ GFillX == /\ ~done /\ Len(hist) < MaxLen
 \* fractions whose next cross-multiplication could leave TLC's 32-bit integers (DESIGN 5.5)
 Big(P) == P.real[2] > 1500 \/ P.avg[2] > 64 \/ AbsI(P.real[1]) > 2000000 \/ P.unreal[2] > 1500
 
+\* NB (TLC): a RandomElement draw is bound through a singleton set (\E x \in {Rnd(S, hist)}): a LET
+\* definition would be re-evaluated - and re-drawn - at every reference; and the draw is given a
+\* state-dependent dummy argument, because TLC evaluates constant-level expressions once at start-up
+\* (every step would see the same draw).
+Rnd(S, dummy) == RandomElement(S)
+
 GFillR == /\ ~done /\ Len(hist) < MaxLen /\ ~Big(pos)
-          /\ LET a == RandomElement(Args) IN GFillAt(a[1], a[2], a[3], a[4], nfill + 1)
+          /\ \E a \in {Rnd(Args, hist)} : GFillAt(a[1], a[2], a[3], a[4], nfill + 1)
 
 \* exchange time of an event of GSpecM: mostly fresh, sometimes equal to the last fill's, sometimes
 \* anything already used (stale, duplicates, reordering across the two market streams)
-RandomTime ==
-    LET r == RandomElement(1..5) IN
-    IF r <= 2 THEN now + 1
-    ELSE IF r = 3 /\ tfill > 0 THEN tfill
-    ELSE RandomElement(1..(now + 1))
+TimeOf(r, u) == IF r <= 2 THEN now + 1 ELSE IF r = 3 /\ tfill > 0 THEN tfill ELSE u
 
 GFillM == /\ ~done /\ Len(hist) < MaxLen
-          /\ LET a == RandomElement(Args)
-                 t == RandomTime
-             IN GFillAt(a[1], a[2], a[3], a[4], t)
+          /\ \E a \in {Rnd(Args, hist)}, r \in {Rnd(1..5, hist)}, u \in {Rnd(1..(now + 1), hist)} :
+                GFillAt(a[1], a[2], a[3], a[4], TimeOf(r, u))
 
 \* ------------------------------------------------------------------ market events
 GMkt(kind, m, t) ==
@@ -118,12 +119,14 @@ GMkt(kind, m, t) ==
               exp |-> [pos |-> PosJ(pos', uset'), exit |-> [side |-> "none"], price |-> PriceJ(pr)]])
 
 GMktR == /\ ~done /\ Len(hist) < MaxLen
-         /\ LET k == RandomElement({"trade", "l1"})
-                m == RandomElement(MARK)
-                t == RandomTime
-            IN GMkt(k, m, t)
+         /\ \E k \in {Rnd({"trade", "l1"}, hist)}, m \in {Rnd(MARK, hist)},
+               r \in {Rnd(1..5, hist)}, u \in {Rnd(1..(now + 1), hist)} :
+               GMkt(k, m, TimeOf(r, u))
 
-GStepM == IF RandomElement(1..5) <= 2 THEN GFillM ELSE GMktR
+\* (the guard comes first on purpose: TLC splits an action at a top-level \E at start-up and would
+\*  evaluate the draw once for the whole run)
+GStepM == /\ ~done
+          /\ \E c \in {Rnd(1..5, hist)} : IF c <= 2 THEN GFillM ELSE GMktR
 
 GFinish == /\ ~done /\ Len(hist) = MaxLen
            /\ done' = TRUE
